@@ -9,7 +9,7 @@ from harness import zones as Z
 ID = "C03"
 BACKENDS = ("py", "rs")
 GEN_MODULES = ("Tables", "Helpers")
-MIN_THEOREMS = 4
+MIN_THEOREMS = 9
 US = D.US
 YMAX = Z.YMAX_QUICK
 MODES = ("add", "subtract", "plus_td", "minus_td", "roundtrip")
